@@ -15,3 +15,15 @@ Proof. intros HR. rewrite gen_get_timestamps_eq. apply ix_get_timestamps_spec. e
 Theorem source_field_values_exact g pts k m : gwf g -> Rep (abs g) pts -> wf_points pts ->
   IndexGen.gen_get_field_values g k m = flat_map (fun p => match dget k (p_fields p) with Some v => [v] | None => [] end) (in_meas m pts).
 Proof. intros [_ [Hf _]] HR Hw. rewrite (gen_get_field_values_eq g k m Hf). apply ix_get_field_values_spec; assumption. Qed.
+Theorem source_field_keys_exact g pts m : Rep (abs g) pts ->
+  sort_dedup (IndexGen.gen_get_field_keys g m) = sort_dedup (flat_map (fun p => map fst (p_fields p)) (in_meas m pts)).
+Proof. intros HR. rewrite gen_get_field_keys_eq. apply ix_get_field_keys_spec. exact HR. Qed.
+Theorem source_tag_keys_exact g pts m : tne (_tags g) -> Rep (abs g) pts ->
+  sort_dedup (IndexGen.gen_get_tag_keys g m) = sort_dedup (flat_map (fun p => map fst (p_tags p)) (in_meas m pts)).
+Proof. intros Ht HR. rewrite (gen_get_tag_keys_eq g m Ht). apply ix_get_tag_keys_spec. exact HR. Qed.
+Theorem source_tne g pts p r u : gwf g -> tne (_tags g) ->
+  tne (_tags (IndexGen.gen_build g pts)) /\ tne (_tags (IndexGen.gen_insert g [p])) /\ tne (_tags (IndexGen.gen_update (IndexGen.gen_remove g r) u)) /\ tne (_tags (IndexGen.gen__reset g)).
+Proof.
+  intros Hg Ht. split; [apply tne_build|]. split; [apply tne_insert_one; assumption|]. split; [| apply tne_reset].
+  apply tne_update. - apply (gen_remove_eq g r Hg). - apply tne_remove. exact Hg.
+Qed.
